@@ -218,6 +218,11 @@ def run(ctx):
         if rng.random() < 0.15:
             pp["windowLog"] = rng.choice([10, 17])
         pl.append(("p%d" % i, x, lie, pp))
+    # ... and on the multithreaded path (pledges above ZSTDMT_JOBSIZE_MIN = 512 KiB, otherwise the frame runs single-threaded)
+    for j, dv in enumerate((1, -1, 1000, 0, -70000) if ctx.quick else (1, -1, 1000, 0, -70000, 2, -2, 300000, 0, -600000)):
+        n = rng.choice([600000, 700000])
+        x = codec.gen_input(rng, rng.choice(["text", "random"]), n)
+        pl.append(("pm%d" % j, x, n + dv, {"level": 1, "nbWorkers": rng.choice([1, 2]), "jobSize": 1, "checksum": rng.randrange(2)}))
     pout, perrs = cd.impl(["S %s %s - - %s %s %d" % (i, codec.params_str(pp), "%d:%d:0" % (len(x) // 2, 1 << 20), codec.hx(x), lie) for i, x, lie, pp in pl])
     pl = [(i, x, lie) for i, x, lie, pp in pl]
     for i, x, lie in pl:
